@@ -22,6 +22,7 @@ type reInfo struct {
 	Sym    *Term // symbolic pattern (unknown)
 	GoRe   *regexp.Regexp
 	Simple bool
+	cells  []reCell // partition of the alphabet induced by the pattern (exact mode)
 }
 
 func asciiLit(r rune) string { return smtStrLit(string(rune(r))) }
@@ -131,6 +132,7 @@ func compileRe(pat string) (*reInfo, error) {
 		return nil, err
 	}
 	ri := &reInfo{Pat: pat, Known: true, NSub: gore.NumSubexp(), GoRe: gore}
+	ri.cells, _ = reCells(pat)
 	re, err := syntax.Parse(pat, syntax.Perl)
 	if err != nil {
 		return nil, err
@@ -261,6 +263,12 @@ func registerRegexp(e *Engine) {
 		if ri == nil {
 			return c.Panic("nil-deref", "MatchString on nil *Regexp")
 		}
+		if rep, succ, forked, ok := e.reExactRep(c, ri, c.argTerm(1)); ok {
+			if forked {
+				return succ
+			}
+			return c.Return(BoolC(ri.GoRe.MatchString(rep)))
+		}
 		return c.Return(e.reMatches(c, ri, c.argTerm(1)))
 	}
 	e.Intr["(*regexp.Regexp).String"] = func(c *Call) []*State {
@@ -283,6 +291,20 @@ func registerRegexp(e *Engine) {
 			vals := make([]Value, len(ms))
 			for i, m := range ms {
 				vals[i] = StrC(m)
+			}
+			return c.Return(e.newSlice(c.St, vals))
+		}
+		if rep, succ, forked, ok := e.reExactRep(c, ri, s); ok {
+			if forked {
+				return succ
+			}
+			idx := ri.GoRe.FindAllStringIndex(rep, int(c.argTerm(2).Signed()))
+			if idx == nil {
+				return c.Return(Slice{})
+			}
+			vals := make([]Value, len(idx))
+			for i, m := range idx {
+				vals[i] = reSub(s, m[0], m[1])
 			}
 			return c.Return(e.newSlice(c.St, vals))
 		}
@@ -329,6 +351,24 @@ func registerRegexp(e *Engine) {
 				inner := make([]Value, len(m))
 				for j, x := range m {
 					inner[j] = StrC(x)
+				}
+				outer[i] = e.newSlice(c.St, inner)
+			}
+			return c.Return(e.newSlice(c.St, outer))
+		}
+		if rep, succ, forked, ok := e.reExactRep(c, ri, s); ok {
+			if forked {
+				return succ
+			}
+			idx := ri.GoRe.FindAllStringSubmatchIndex(rep, int(c.argTerm(2).Signed()))
+			if idx == nil {
+				return c.Return(Slice{})
+			}
+			outer := make([]Value, len(idx))
+			for i, m := range idx {
+				inner := make([]Value, len(m)/2)
+				for j := range inner {
+					inner[j] = reSub(s, m[2*j], m[2*j+1])
 				}
 				outer[i] = e.newSlice(c.St, inner)
 			}
